@@ -43,7 +43,7 @@ def run_tlc(module, cfg=None, env=None, workers=4, heap='3g', timeout=1800,
     cmd = ['java', '-Djava.io.tmpdir=' + meta, '-Dtlc2.tool.queue.IStateQueue=StateDeque', '-XX:+UseParallelGC', '-XX:ParallelGCThreads=4', '-Xmn512m',
            f'-Xmx{heap}', '-Xss64m',
            '-cp', JAR, 'tlc2.TLC', '-workers', str(workers), '-metadir', meta,
-           '-noGenerateSpecTE', '-deadlock']
+           '-noGenerateSpecTE', '-deadlock', '-checkpoint', '0']     # (StateDeque cannot be checkpointed: a run of 30 min would stop)
     if cfg:
         cmd += ['-config', cfg]
     if simulate:
